@@ -21,7 +21,7 @@ ACTION_CONSTRAINT Emit
 VIEW View
 CHECK_DEADLOCK FALSE
 """
-PATS = ["a", "ab", "(?:)", "b*", "b{0,2}", "a|b", ".", "^a", "a$", "astral", "loneH", "(a)|b"]
+PATS = ["a", "ab", "(?:)", "b*", "b{0,2}", "a|b", ".", "^a", "a$", "astral", "loneH", "(a)|b", "(?<n>a)|b"]
 INIT = {"pat": "none", "flags": "", "li": 0}
 # the four configurations of the real engine every edge must hold in
 CONFIGS = [("re2", False), ("regexp2", False), ("re2", True), ("regexp2", True)]
